@@ -22,7 +22,7 @@ RULE = ("(genuine frame, mutation, receiver history) triples; distinct by hash o
 ASSUMPTIONS = ["a mutation that leaves the decoded secured structure (signed data, signer, signature) identical is 'equivalent' and may be delivered (encoding slack, trailing octets, unsigned basic header)",
                "exceptions raised by the receive path count as 'not delivered' here (C04 decides their effect on the loop)",
                "python-ecdsa is trusted"]
-REQUIRED_COUNTERS = ["frames_injected", "must_not_deliver_checked", "equivalent_mutations", "genuine_delivered", "bitflips", "structure_mutations", "attacker_chain_frames", "unsecured_frames", "insider_frames", "attacker_frames_judged_after_insider_frames"]
+REQUIRED_COUNTERS = ["frames_injected", "must_not_deliver_checked", "equivalent_mutations", "genuine_delivered", "bitflips", "structure_mutations", "attacker_chain_frames", "unsecured_frames", "insider_frames", "attacker_frames_judged_after_insider_frames", "rounds_with_a_neighbour_station_of_the_other_trust_domain"]
 
 LAT, LON = 415000000, 21000000
 
@@ -323,7 +323,7 @@ def run_shard(spec, res):
             uf = unsecured_frames(clock)
             muts += uf
             res.count("unsecured_frames", len(uf))
-            if rng.random() < 0.5:
+            if rnd % 2 == 0:
                 # another station in this process whose trust anchors are the attacker's (a test bench or gateway serving two
                 # trust domains) hears the attacker's frames first: what it learns is its own business, not R's
                 ether2, R2, _sec2 = new_receiver(clock, A)
